@@ -115,8 +115,10 @@ def result_stores(fa: FuncAnalysis) -> List[Tuple[Node, ast.AST]]:
 
 
 def r11a(run):
-    ss = sites(run)
-    run.floor("R11a", "policy handlers in the parse core", len(ss), 8)
+    from . import args_table
+    args_table.emit(run, "R11a")             # the sequence / mapping element parsers: decided on their decision tables
+    ss = [s for s in sites(run) if s.f.name not in args_table.TABLE_FUNCS]
+    run.floor("R11a", "policy handlers in the parse core (outside the element-parser tables)", len(ss), 4)
     fam = exception_family(run.repo)
     for s in ss:
         f, fa, h = s.f, s.fa, s.h
